@@ -71,7 +71,9 @@ def macroVerb (ws : List String) : Option String :=
               | _ => s!"p={optHex p} r={argsRepr got} ret=ERR")
            else
            let ret := 91 :: joinElems (got.map argText) ++ [93]
-           s!"p={optHex p} r={argsRepr got} ret={hexText ret}"
+           -- a subscription stub: the dropped stream is unsubscribed through the registered unsubscribe name
+           let unsub := if key.startsWith "sub" then " unsub=ok" else ""
+           s!"p={optHex p} r={argsRepr got} ret={hexText ret}{unsub}"
          | none => s!"p={optHex p} r=E ret=ERR")
       | _, _ => "bad-op")
   | ["mraw", _, kind, desc, _, params] =>
